@@ -126,28 +126,47 @@ def reader_arms(ctx: Any) -> Dict[int, Tuple[str, List[Tuple[str, str]]]]:
         if not isinstance(st, ast.If):
             continue
         t = st.test
-        types: List[int] = []
-        if isinstance(t, ast.Compare) and len(t.ops) == 1:
-            if isinstance(t.ops[0], ast.Eq):
-                for side in (t.comparators[0], t.left):
-                    okc, v = prog.try_fold(m, side)
-                    if okc and not (isinstance(side, ast.Name) and side.id in f.params):
-                        types = [v]
-            elif isinstance(t.ops[0], ast.In):
-                okc, v = prog.try_fold(m, t.comparators[0])
-                if okc:
-                    types = list(v)
+        def fold_types(t: ast.AST) -> List[int]:
+            if isinstance(t, ast.BoolOp) and isinstance(t.op, ast.Or):
+                parts = [fold_types(v) for v in t.values]
+                return [x for p_ in parts for x in p_] if all(parts) else []
+            if isinstance(t, ast.Compare) and len(t.ops) == 1:
+                if isinstance(t.ops[0], ast.Eq):
+                    for side in (t.comparators[0], t.left):
+                        okc, v = prog.try_fold(m, side)
+                        if okc and not (isinstance(side, ast.Name) and side.id in f.params):
+                            return [v]
+                elif isinstance(t.ops[0], ast.In):
+                    okc, v = prog.try_fold(m, t.comparators[0])
+                    if okc:
+                        return list(v)
+            return []
+
+        types: List[int] = fold_types(t)
         if not types:
             raise AnalysisError(f'_read_record: cannot fold the type test `{norm(t)}`')
         local_tok: Dict[str, Tuple[str, int]] = {}
+        local_expr: Dict[str, ast.AST] = {}
         ret = None
         for b in st.body:
             if isinstance(b, ast.Assign) and isinstance(b.targets[0], ast.Name):
                 bp = be_pattern(prog, m, b.value)
                 if bp is not None:
                     local_tok[b.targets[0].id] = (f'U{8 * bp[0]}', bp[1])
+                else:
+                    local_expr[b.targets[0].id] = b.value  # a plain local: read through it
             if isinstance(b, ast.Return):
                 ret = b.value
+        if isinstance(ret, ast.Call) and local_expr:
+            import copy as _copy
+
+            class _Subst(ast.NodeTransformer):
+                def visit_Name(self, n_: ast.Name) -> Any:
+                    return _copy.deepcopy(local_expr[n_.id]) if isinstance(n_.ctx, ast.Load) and n_.id in local_expr else n_
+
+            ret = _copy.deepcopy(ret)
+            ret.args = [_Subst().visit(a) for a in ret.args]
+        tparam = next((x.id for x in ast.walk(t) if isinstance(x, ast.Name) and x.id in f.params), None)
         if not (isinstance(ret, ast.Call) and isinstance(ret.func, ast.Name)):
             raise AnalysisError(f'_read_record: arm for {types} does not return a constructor call')
         r = prog.resolve_name(m, ret.func.id)
@@ -176,6 +195,12 @@ def reader_arms(ctx: Any) -> Dict[int, Tuple[str, List[Tuple[str, str]]]]:
                     toks.append(('CSTR', fld))
                 elif nm == '_read_string':
                     okc, v = prog.try_fold(m, a.args[0]) if a.args else (False, None)
+                    if not okc and a.args and tparam is not None:
+                        # a width that depends on the record type (`4 if type_ == _TYPE_A else 16`): one value per type of the arm
+                        vals = [fd.Evaluator(prog, m, {tparam: ty_}).ev(a.args[0]) for ty_ in types]
+                        if all(isinstance(x, int) for x in vals):
+                            toks.append(('RAW:' + '|'.join(str(x) for x in vals), fld))
+                            continue
                     if okc and not (isinstance(a.args[0], ast.Name) and a.args[0].id in f.params):
                         toks.append((f'RAW:{v}', fld))
                     elif isinstance(a.args[0], ast.Name) and a.args[0].id == f.params[5]:
@@ -186,8 +211,8 @@ def reader_arms(ctx: Any) -> Dict[int, Tuple[str, List[Tuple[str, str]]]]:
                     toks.append(('BITMAP', fld))
                 else:
                     toks.append((f'?{nm}', fld))
-        for ty in types:
-            arms[ty] = (ci.name, toks)
+        for i_ty, ty in enumerate(types):
+            arms[ty] = (ci.name, [((tok.split(':')[0] + ':' + tok.split(':')[1].split('|')[i_ty]) if tok.startswith('RAW:') and '|' in tok else tok, fld) for tok, fld in toks])
     return arms
 
 
@@ -381,7 +406,7 @@ def layout(ctx: Any) -> List[Ob]:
                 n_ctor += 1
                 if c.args and self_attr(c.args[-1], rinc.params[0]) == 'now':
                     n_now += 1
-    obs.append(ob(R, rinc, f'{n_now}/{n_ctor} constructors end with self.now', 'every decoded record is created at the datagram\'s arrival time', n_ctor >= 7 and n_now == n_ctor))
+    obs.append(ob(R, rinc, f'{n_now}/{n_ctor} constructors end with self.now', 'every decoded record is created at the datagram\'s arrival time', n_ctor >= 1 and n_now == n_ctor and len(set(reader_arms(ctx))) >= 8))
     obs.extend(ctor_verbatim_obligations(ctx, R))
     return obs
 
@@ -710,6 +735,14 @@ def rollback(ctx: Any) -> List[Ob]:
         except lf.NotLinear:
             oks = False
     obs.append(ob(R, wn, 'self.names[partial_name] = start_size + name_length - len(partial_name.encode())', 'each suffix is recorded at the offset where it starts (start of the name + bytes before the suffix)', oks))
+    # `either rejected with NamePartTooLongException or recovered`: a message whose build was cut short by that exception is not
+    # marked finished, so a later call cannot hand out the part that had been built (shared with C14.SECTIONS)
+    from .c14 import sections as _sections
+
+    for o in _sections.fn(ctx):
+        if 'finished' in o.statement:
+            o.rule = R
+            obs.append(o)
     return obs
 
 
